@@ -98,8 +98,9 @@ func parseSingleConstraint(c string) ([]*constraint, error) {
 		return parseTildeConstraint(c[1:])
 	}
 
-	// Handle wildcard constraint (1.2.* or 1.x)
-	if strings.Contains(c, "*") || strings.Contains(c, "x") {
+	// Handle wildcard constraint (1.2.* or 1.x): a whole component is the wildcard. A letter x
+	// elsewhere (>=1.0.0+x1, >=dev-fix) belongs to a version.
+	if hasWildcardComponent(c) {
 		return parseWildcardConstraint(c)
 	}
 
@@ -295,6 +296,16 @@ func parseTildeConstraint(version string) ([]*constraint, error) {
 			{operator: "<", version: upperVersion},
 		}, nil
 	}
+}
+
+// hasWildcardComponent reports whether a dot-separated component is exactly * or x
+func hasWildcardComponent(c string) bool {
+	for _, part := range strings.Split(c, ".") {
+		if part == "*" || part == "x" {
+			return true
+		}
+	}
+	return false
 }
 
 // parseWildcardConstraint handles wildcard constraints (1.2.* or 1.x)
